@@ -219,6 +219,28 @@ def process(ctx: Ctx, cases: list[dict]) -> None:
                     mm = [x for x in m if x[0] != "mkdirs" or any(g[0] == "mkdirs" for g in got)]
                     if got != mm:
                         ctx.disagree("effects of DictWriter.write", c, m, got)
+            elif k == "rewrite":
+                # the same target path used again in one process after its folder was removed, and the same relative target
+                # from two working directories: the missing parent directories are created every time
+                ctx_ok = True
+                import shutil
+                old = os.getcwd()
+                try:
+                    t1 = td / "again" / "deeper" / c["name"]
+                    DictWriter.write({"k": 1}, t1, mode="w")
+                    shutil.rmtree(td / "again")
+                    res, eff, b, a = trace(td, lambda: (DictWriter.write({"k": 2}, t1, mode=c["mode"]) if c["how"] == "write" else SDict({"k": 2}).dump(t1)))
+                    if isinstance(res, BaseException) or not t1.exists():
+                        ctx.violation("a write into a folder that was removed since the last write does not create it again", c, repr(res), "file written")
+                    for wd in ("cwd1", "cwd2"):
+                        (td / wd).mkdir(exist_ok=True)
+                        os.chdir(td / wd)
+                        rel = Path("results") / "case" / c["name"]
+                        res, eff, b, a = trace(td, lambda: DictWriter.write({"k": 3}, rel, mode=c["mode"]))
+                        if isinstance(res, BaseException) or not (td / wd / rel).exists():
+                            ctx.violation("a write to a relative target whose folder is missing in this working directory does not create it", c, repr(res), f"{wd}/{rel}")
+                finally:
+                    os.chdir(old)
             elif k == "parse":
                 opts = c["opts"]
                 res, eff, b, a = trace(td, lambda: DictParser.parse(proj / c["file"], **opts))
@@ -283,6 +305,8 @@ def run(ctx: Ctx) -> None:
         cases.append({"kind": "write", "target": target, "mode": mode, "target_exists": exists, "d": enc(d)})
         if rng.random() < 0.3:
             cases.append({"kind": "dump", "target": target, "target_exists": exists, "d": enc(d)})
+    for nm, mode, how in itertools.product(["d.json", "d", "my d.foam"], ["a", "w"], ["write", "dump"]):
+        cases.append({"kind": "rewrite", "name": nm, "mode": mode, "how": how})
     for fault, target in (("formatter_raises", "out"), ("json_set", "out.json"), ("xml_name", "out.xml"), ("native_obj", "out"), ("formatter_raises", "newdir/out")):
         for mode, exists in itertools.product(["a", "w", "x"], [False, True]):
             cases.append({"kind": "write", "target": target, "mode": mode, "target_exists": exists, "fault": fault, "d": enc({"k": 1})})
